@@ -5,7 +5,7 @@ month-aligned periods, and the disaggregation sums in C08/C09's `getV`/`at` voca
 import Bermuda.Lemmas.UnitsTiling
 import Bermuda.Lemmas.Aggregate
 namespace Bermuda.Units
-open Bermuda Bermuda.Spec.C18 Std
+open Bermuda Bermuda.Spec.C18 Std Generated.Summarize
 
 /-- stepping back from a month end stays on month ends -/
 theorem walkDown_monthEnd {q : Int} {bound : Date} :
@@ -248,6 +248,434 @@ theorem relabel_to_parent {res : Nat} {sl : List Cell} {L : Int} (w : SliceWF re
     omega
   · rw [hev, (hsub.2.1 x hx).2.1]
   · rw [hmd, (hsub.2.1 x hx).1]
+
+
+
+/-- two cells of a well-formed slice with the same coordinates are the same cell -/
+theorem sliceWF_key_inj {res : Nat} {sl : List Cell} {L : Int} (w : SliceWF res sl L) {c c' : Cell}
+    (hc : c ∈ sl) (hc' : c' ∈ sl) (hps : c.ps = c'.ps) (hpe : c.pe = c'.pe) (hev : c.ev = c'.ev) :
+    c = c' := by
+  by_contra hne
+  obtain ⟨hcpe, hcps⟩ := sliceWF_pe w hc
+  have h0 : ¬ monthEndOf (monthToId c.ps + L - 1) < firstOf (monthToId c.ps) :=
+    not_monthEndOf_lt_firstOf (by have := w.hL; omega)
+  have hle : ¬ c.pe < c.ps := by rwa [← hcpe, hcps] at h0
+  rcases w.disj c hc c' hc' hne hev with h | h
+  · rw [← hps] at h; exact hle h
+  · rw [← hpe] at h; exact hle h
+
+/-- common setup of the slice-level theorems: the groups, the sorted cells, their re-labelled
+images and the piles, with "every sub-period cell is re-labelled to its parent's coordinates" -/
+theorem slice_roundtrip_setup {tr : Transc} {sl mid back : List Cell} {res : Nat}
+    {F : List String} {L q : Int} {s : String} {origin : Date} {prem : Bool}
+    (w : SliceWF res sl L) {parts : List (List Cell)}
+    (hF : Forall2 (SubCellsN res (L / (res : Int)).toNat F) sl parts) (hS : mid.Perm parts.flatten)
+    (hov : origin.valid = true) (hoe : origin.isMonthEnd = true)
+    (hgrid : ∀ c ∈ sl, ∃ z : Int, monthToId c.ps = monthToId origin + z * L + 1)
+    (hst : standardizeResolution q s = .ok (L, .month))
+    (hagg : aggregatePeriod tr mid (some (q, s)) origin prem = .ok back) :
+    ∃ (c0 : Cell) (tl rel newCells : List Cell),
+      sl.length = parts.length ∧
+      (∀ p ∈ sl.zip parts, SubCellsN res (L / (res : Int)).toNat F p.1 p.2) ∧
+      (∀ x, x ∈ c0 :: tl ↔ x ∈ mid) ∧
+      (mid.mergeSort fun a b => coordCmp a b != .gt) = c0 :: tl ∧
+      rel.length = (c0 :: tl).length ∧
+      smMapE (aggCell tr prem) (groupsOf key3 rel) = .ok newCells ∧ back.Perm newCells ∧
+      (∀ x ∈ mid, ∃ c part, (c, part) ∈ sl.zip parts ∧ x ∈ part) ∧
+      (∀ x rc, (x, rc) ∈ (c0 :: tl).zip rel → ∀ c part, (c, part) ∈ sl.zip parts → x ∈ part →
+        rc.ps = c.ps ∧ rc.pe = c.pe ∧ rc.ev = c.ev ∧ rc.values = x.values ∧ rc.md = c.md) := by
+  obtain ⟨hlenP, hzipP⟩ := hF.zip
+  obtain ⟨q', u, c0, tl, init, rel, newCells, hst', hsorted, hanchor, hrel, hnew, hperm⟩ :=
+    aggregatePeriod_anchor hagg
+  rw [hst] at hst'
+  simp only [Except.ok.injEq, Prod.mk.injEq] at hst'
+  obtain ⟨rfl, rfl⟩ := hst'
+  obtain ⟨z0, hinit, hlt⟩ := anchorBefore_monthEnd hov hoe hanchor
+  have hsortp : (c0 :: tl).Pairwise (fun a b => ¬ b.ps < a.ps) := by
+    rw [← hsorted]; exact sorted_by_ps mid
+  have hc0 : ∀ x ∈ c0 :: tl, ¬ x.ps < c0.ps := by
+    intro x hx
+    rcases List.mem_cons.mp hx with rfl | hx
+    · exact date_lt_irrefl _
+    · exact (List.pairwise_cons.mp hsortp).1 x hx
+  have hsmem : ∀ x, x ∈ c0 :: tl ↔ x ∈ mid := by
+    intro x; rw [← hsorted]; exact (List.mergeSort_perm _ _).mem_iff
+  have hrlen := (assignWindows_spec hrel).1
+  -- every cell of `mid` has a parent
+  have hparent : ∀ x ∈ mid, ∃ c part, (c, part) ∈ sl.zip parts ∧ x ∈ part := by
+    intro x hx
+    have hx := hS.mem_iff.mp hx
+    obtain ⟨part, hp, hxp⟩ := List.mem_flatten.mp hx
+    obtain ⟨c, hcp⟩ := exists_zip_of_mem_right hlenP hp
+    exact ⟨c, part, hcp, hxp⟩
+  -- relabelling, for every pair
+  have hrl : ∀ x rc, (x, rc) ∈ (c0 :: tl).zip rel → ∀ c part, (c, part) ∈ sl.zip parts → x ∈ part →
+      rc.ps = c.ps ∧ rc.pe = c.pe ∧ rc.ev = c.ev ∧ rc.values = x.values ∧ rc.md = c.md :=
+    fun x rc hp c part hcp hx =>
+      relabel_to_parent w hinit hlt hgrid hsortp hc0 hrel hp (List.of_mem_zip hcp).1 (hzipP _ hcp) hx
+  exact ⟨c0, tl, rel, newCells, hlenP, hzipP, hsmem, hsorted, hrlen, hnew, hperm, hparent, hrl⟩
+
+/-- **slice level of `aggregate_disagg`.** Disaggregate one well-formed slice and aggregate the result
+back to `L`-month periods from a month-end origin on whose `L`-grid all period starts lie: every
+aggregated cell sits exactly on the coordinates of an input cell that has an observable sub-period,
+is a CumulativeCell with that cell's metadata, and every selected summed field carries the input
+cell's value (C09's `at` reading of a value, for an in-range index). -/
+theorem aggregate_disagg_slice {tr : Transc} {sl mid back : List Cell} {res : Nat}
+    {F : List String} {L q : Int} {s : String} {origin : Date} {prem : Bool}
+    (w : SliceWF res sl L) {parts : List (List Cell)}
+    (hF : Forall2 (SubCellsN res (L / (res : Int)).toNat F) sl parts) (hS : mid.Perm parts.flatten)
+    (hov : origin.valid = true) (hoe : origin.isMonthEnd = true)
+    (hgrid : ∀ c ∈ sl, ∃ z : Int, monthToId c.ps = monthToId origin + z * L + 1)
+    (hst : standardizeResolution q s = .ok (L, .month))
+    (hagg : aggregatePeriod tr mid (some (q, s)) origin prem = .ok back) :
+    ∀ o ∈ back, ∃ c ∈ sl, obsSubs c res (L / (res : Int)).toNat ≠ [] ∧
+      o.ps = c.ps ∧ o.pe = c.pe ∧ o.ev = c.ev ∧ o.md = c.md ∧ o.kind = .cumulative ∧
+      ∀ f i, F.contains f = true → ruleOf [] (lowerKey f) = some ⟨.sum, [f]⟩ →
+        (prem = true ∨ f ∉ nonLossMetrics) → (∀ x ∈ mid, (x.getV f).inRange i = true) →
+        (o.getV f).at i = (c.getV f).at i := by
+  obtain ⟨c0, tl, rel, newCells, hlenP, hzipP, hsmem, hsorted, hrlen, hnew, hperm, hparent, hrl⟩ :=
+    slice_roundtrip_setup w hF hS hov hoe hgrid hst hagg
+  intro o ho
+  obtain ⟨g, hg, hgo⟩ := smMapE_mem hnew (hperm.mem_iff.mp ho)
+  obtain ⟨hkey, hg2⟩ := aggCell_key hg hgo
+  obtain ⟨r0, rest, vals, hgc, hvals, ho'⟩ := aggCell_ok hgo
+  have hr0 : r0 ∈ rel := by
+    have : r0 ∈ g.2 := by rw [hgc]; simp
+    rw [hg2] at this; exact (List.mem_filter.mp this).1
+  obtain ⟨x0, hx0⟩ := exists_zip_of_mem_right hrlen.symm hr0
+  obtain ⟨c, part, hcp, hx0p⟩ := hparent x0 ((hsmem x0).mp (List.of_mem_zip hx0).1)
+  have hcm : c ∈ sl := (List.of_mem_zip hcp).1
+  have hsub := hzipP _ hcp
+  obtain ⟨e1, e2, e3, _, e5⟩ := hrl x0 r0 hx0 c part hcp hx0p
+  have hpne : part ≠ [] := List.ne_nil_of_mem hx0p
+  refine ⟨c, hcm, ?_, by rw [ho', e1], by rw [ho', e2], by rw [ho', e3], by rw [ho', e5], by rw [ho'], ?_⟩
+  · intro he
+    have := hsub.1
+    rw [he] at this
+    exact hpne (List.map_eq_nil_iff.mp this)
+  · intro f i hf hr hc hin
+    have hinr : ∀ rc ∈ g.2, (rc.getV f).inRange i = true := by
+      intro rc hrc
+      rw [hg2] at hrc
+      obtain ⟨x, hxr⟩ := exists_zip_of_mem_right hrlen.symm (List.mem_filter.mp hrc).1
+      obtain ⟨c', part', hcp', hxp'⟩ := hparent x ((hsmem x).mp (List.of_mem_zip hxr).1)
+      have := (hrl x rc hxr c' part' hcp' hxp').2.2.2.1
+      unfold Cell.getV; rw [this]
+      exact hin x ((hsmem x).mp (List.of_mem_zip hxr).1)
+    have hsum := (summarizeCellValues_sum_at' (i := i) hvals hc hr hinr).1
+    have hget : o.getV f = (Dict.get? vals f).getD .none := by rw [ho']; rfl
+    rw [hget, hsum, hg2]
+    -- key of o is the key of c
+    have hko : key3 o = (c.ps, c.pe, c.ev) := by simp [key3, ho', e1, e2, e3]
+    rw [sum_filter_indicator, hko]
+    -- transfer to the sorted cells of `mid`
+    rw [← ratsum_zip (fun x : Cell => if decide (x ∈ part) = true then (x.getV f).at i else 0)
+      (fun rc : Cell => if key3 rc == (c.ps, c.pe, c.ev) then (rc.getV f).at i else 0) (c0 :: tl) rel hrlen.symm]
+    · rw [← hsorted, sum_map_perm (List.mergeSort_perm mid _), sum_map_perm hS,
+        ← sum_filter_indicator (p := fun x : Cell => decide (x ∈ part))]
+      have hiso := flatten_filter_isolate (key := fun c : Cell => c) (fun x : Cell => decide (x ∈ part)) sl parts hlenP
+        (by simpa using w.nodup) (c, part) hcp (by
+          intro q hq hkne
+          obtain ⟨c', part'⟩ := q
+          simp only at hkne ⊢
+          rw [List.filter_eq_nil_iff]
+          intro y hy hyp
+          have hyp' : y ∈ part := by simpa using hyp
+          have hc'm : c' ∈ sl := (List.of_mem_zip hq).1
+          have hs' := hzipP _ hq
+          have hm1 : (y.ps, y.pe) ∈ expectedSubs res c := by
+            rw [sliceWF_expected w hcm, ← hsub.1]; exact List.mem_map.mpr ⟨y, hyp', rfl⟩
+          have hm2 : (y.ps, y.pe) ∈ expectedSubs res c' := by
+            rw [sliceWF_expected w hc'm, ← hs'.1]; exact List.mem_map.mpr ⟨y, hy, rfl⟩
+          have hev : c.ev = c'.ev := by rw [← (hsub.2.1 y hyp').2.1, (hs'.2.1 y hy).2.1]
+          exact expectedSubs_disjoint w hcm hc'm (fun e => hkne e.symm) hev hm1 hm2)
+      rw [hiso]
+      have : part.filter (fun x => decide (x ∈ part)) = part := by
+        rw [List.filter_eq_self]; intro y hy; simpa using hy
+      rw [this]
+      exact hsub.2.2.2 hpne f hf i
+    · intro p hp
+      obtain ⟨x, rc⟩ := p
+      simp only
+      obtain ⟨c', part', hcp', hxp'⟩ := hparent x ((hsmem x).mp (List.of_mem_zip hp).1)
+      obtain ⟨a1, a2, a3, a4, _⟩ := hrl x rc hp c' part' hcp' hxp'
+      have hgv : rc.getV f = x.getV f := by unfold Cell.getV; rw [a4]
+      by_cases hxin : x ∈ part
+      · obtain ⟨b1, b2, b3, _, _⟩ := hrl x rc hp c part hcp hxin
+        simp [hxin, key3, b1, b2, b3, hgv]
+      · have hkne : ¬ (key3 rc == (c.ps, c.pe, c.ev)) = true := by
+          intro hkeq
+          have hk3 : (rc.ps, rc.pe, rc.ev) = (c.ps, c.pe, c.ev) := by simpa [key3] using hkeq
+          simp only [Prod.mk.injEq] at hk3
+          have hcc : c' = c := sliceWF_key_inj w (List.of_mem_zip hcp').1 hcm
+            (by rw [← a1, hk3.1]) (by rw [← a2, hk3.2.1]) (by rw [← a3, hk3.2.2])
+          subst hcc
+          have := zip_unique_right w.nodup hcp' hcp
+          subst this
+          exact hxin hxp'
+        simp [hxin, hkne]
+
+
+
+/-- … and conversely: the aggregated cells sit on exactly the coordinates of the input cells that
+have an observable sub-period, each once -/
+theorem aggregate_disagg_slice_keys {tr : Transc} {sl mid back : List Cell} {res : Nat}
+    {F : List String} {L q : Int} {s : String} {origin : Date} {prem : Bool}
+    (w : SliceWF res sl L) {parts : List (List Cell)}
+    (hF : Forall2 (SubCellsN res (L / (res : Int)).toNat F) sl parts) (hS : mid.Perm parts.flatten)
+    (hov : origin.valid = true) (hoe : origin.isMonthEnd = true)
+    (hgrid : ∀ c ∈ sl, ∃ z : Int, monthToId c.ps = monthToId origin + z * L + 1)
+    (hst : standardizeResolution q s = .ok (L, .month))
+    (hagg : aggregatePeriod tr mid (some (q, s)) origin prem = .ok back) :
+    (back.map key3).Perm
+      ((sl.filter fun c => decide (obsSubs c res (L / (res : Int)).toNat ≠ [])).map key3) := by
+  obtain ⟨c0, tl, rel, newCells, hlenP, hzipP, hsmem, hsorted, hrlen, hnew, hperm, hparent, hrl⟩ :=
+    slice_roundtrip_setup w hF hS hov hoe hgrid hst hagg
+  have hk1 : newCells.map key3 = smDedup (rel.map key3) := by
+    have := smMapE_map key3 (fun g : (Date × Date × Date) × List Cell => g.1) hnew
+      (fun g hg o ho => (aggCell_key hg ho).1)
+    rw [this]; simp [groupsOf, List.map_map, Function.comp_def]
+  refine (hperm.map key3).trans ?_
+  rw [hk1, List.perm_ext_iff_of_nodup (nodup_smDedup _)]
+  · intro K
+    rw [mem_smDedup]
+    constructor
+    · intro hK
+      obtain ⟨rc, hrc, rfl⟩ := List.mem_map.mp hK
+      obtain ⟨x, hx⟩ := exists_zip_of_mem_right hrlen.symm hrc
+      obtain ⟨c, part, hcp, hxp⟩ := hparent x ((hsmem x).mp (List.of_mem_zip hx).1)
+      obtain ⟨e1, e2, e3, _, _⟩ := hrl x rc hx c part hcp hxp
+      refine List.mem_map.mpr ⟨c, List.mem_filter.mpr ⟨(List.of_mem_zip hcp).1, ?_⟩, by simp [key3, e1, e2, e3]⟩
+      simp only [decide_eq_true_eq]
+      intro he
+      have := (hzipP _ hcp).1
+      rw [he] at this
+      exact List.ne_nil_of_mem hxp (List.map_eq_nil_iff.mp this)
+    · intro hK
+      obtain ⟨c, hcf, rfl⟩ := List.mem_map.mp hK
+      obtain ⟨hcm, hobs⟩ := List.mem_filter.mp hcf
+      simp only [decide_eq_true_eq] at hobs
+      obtain ⟨part, hcp⟩ := exists_zip_of_mem_left hlenP hcm
+      have hpne : part ≠ [] := by
+        intro he
+        have := (hzipP _ hcp).1
+        rw [he] at this
+        exact hobs this.symm
+      obtain ⟨x, hxp⟩ := List.exists_mem_of_ne_nil part hpne
+      have hxm : x ∈ mid := by
+        exact hS.mem_iff.mpr (List.mem_flatten.mpr ⟨part, (List.of_mem_zip hcp).2, hxp⟩)
+      obtain ⟨rc, hxr⟩ := exists_zip_of_mem_left hrlen.symm ((hsmem x).mpr hxm)
+      obtain ⟨e1, e2, e3, _, _⟩ := hrl x rc hxr c part hcp hxp
+      exact List.mem_map.mpr ⟨rc, (List.of_mem_zip hxr).2, by simp [key3, e1, e2, e3]⟩
+  · apply List.Nodup.map_on
+    · intro a ha b hb hab
+      have ha' := (List.mem_filter.mp ha).1
+      have hb' := (List.mem_filter.mp hb).1
+      simp only [key3, Prod.mk.injEq] at hab
+      exact sliceWF_key_inj w ha' hb' hab.1 hab.2.1 hab.2.2
+    · exact w.nodup.filter _
+
+
+
+theorem smFoldE_add_perm : ∀ (rest : List (List Cell)) (acc r : List Cell),
+    smFoldE (fun acc s => Triangle.ofCells (acc ++ s)) acc rest = .ok r → r.Perm (acc ++ rest.flatten) := by
+  intro rest
+  induction rest with
+  | nil => intro acc r h; simp [smFoldE] at h; subst h; simp
+  | cons b bs ih =>
+    intro acc r h
+    simp only [smFoldE] at h
+    split at h
+    · cases h
+    · rename_i a ha
+      have h1 := ih _ _ h
+      have h2 : a.Perm (acc ++ b) := ofCells_perm' ha
+      rw [List.flatten_cons, ← List.append_assoc]
+      exact h1.trans (h2.append_right _)
+
+theorem aggSumTriangles_perm {l : List (List Cell)} {r : List Cell} (h : sumTriangles l = .ok r) :
+    r.Perm l.flatten := by
+  cases l with
+  | nil => simp [sumTriangles] at h; subst h; simp
+  | cons a rest => simpa [sumTriangles] using smFoldE_add_perm rest a r h
+
+/-- the slice of the disaggregated triangle with metadata `sl.1` is the concatenation of the groups
+of the cells of the input slice `sl` -/
+theorem out_filter_slice {t out : List Cell} {res : Nat} {F : List String}
+    {pss : List (List (List Cell))} (hperm : out.Perm pss.flatten.flatten)
+    (hall : Forall2 (fun sl ps => ∃ sres, periodResolution sl.2 = .ok sres ∧
+      Forall2 (SubCellsN res (sres / (res : Int)).toNat F) sl.2 ps) (Triangle.slices t) pss)
+    {sl : Metadata × List Cell} {ps : List (List Cell)} (hsl : (sl, ps) ∈ (Triangle.slices t).zip pss) :
+    (out.filter fun o => o.md == sl.1).Perm ps.flatten := by
+  obtain ⟨hlen, hzip⟩ := hall.zip
+  refine (hperm.filter _).trans (List.Perm.of_eq ?_)
+  have hflat : pss.flatten.flatten = (pss.map List.flatten).flatten := by rw [List.flatten_flatten]
+  rw [hflat]
+  have hmd : ∀ (sl' : Metadata × List Cell) (ps' : List (List Cell)), (sl', ps') ∈ (Triangle.slices t).zip pss →
+      ∀ o ∈ ps'.flatten, o.md = sl'.1 := by
+    intro sl' ps' hq o ho
+    obtain ⟨part', hp', hop⟩ := List.mem_flatten.mp ho
+    obtain ⟨_, _, hin'⟩ := hzip (sl', ps') hq
+    obtain ⟨c', hc', hs'⟩ := hin'.mem_right hp'
+    rw [(hs'.2.1 o hop).1]; exact (mem_slices_md (List.of_mem_zip hq).1 hc').1
+  have houter := flatten_filter_isolate (key := fun sl : Metadata × List Cell => sl.1)
+    (fun o : Cell => o.md == sl.1) (Triangle.slices t) (pss.map List.flatten) (by simpa using hlen)
+    (by rw [slices_keys]; exact metasOf_nodup t) (sl, ps.flatten)
+    (by rw [List.zip_map_right]; exact List.mem_map.mpr ⟨(sl, ps), hsl, rfl⟩)
+    (by
+      intro q hq hk
+      rw [List.zip_map_right] at hq
+      obtain ⟨⟨sl', ps'⟩, hq', rfl⟩ := List.mem_map.mp hq
+      simp only [Prod.map_apply, id_eq] at hk ⊢
+      rw [List.filter_eq_nil_iff]
+      intro o ho hoe
+      have := hmd sl' ps' hq' o ho
+      exact hk (by rw [← this]; simpa using hoe))
+  rw [houter, List.filter_eq_self]
+  intro o ho
+  simpa using hmd sl ps hsl o ho
+
+
+
+theorem mem_flat2 {α} {pss : List (List (List α))} {o : α} :
+    o ∈ pss.flatten.flatten ↔ ∃ ps ∈ pss, ∃ part ∈ ps, o ∈ part := by
+  constructor
+  · intro h
+    obtain ⟨part, hpf, ho⟩ := List.mem_flatten.mp h
+    obtain ⟨ps, hps, hp⟩ := List.mem_flatten.mp hpf
+    exact ⟨ps, hps, part, hp, ho⟩
+  · rintro ⟨ps, hps, part, hp, ho⟩
+    exact List.mem_flatten.mpr ⟨part, List.mem_flatten.mpr ⟨ps, hps, hp⟩, ho⟩
+
+/-- what the aggregation of the disaggregated triangle does, slice by slice -/
+theorem aggregate_disagg_core {tr : Transc} {t out back : List Cell} {res : Nat} {ws : List Rat}
+    {F : List String} {L q : Int} {s : String} {origin : Date} {a : AggArgs}
+    (hwf : disaggWF res t = true) (hL : ∀ sl ∈ Triangle.slices t, periodResolution sl.2 = .ok L)
+    (hws : ws ≠ []) (hcore : disaggCore t res ws F = .ok out)
+    (hov : origin.valid = true) (hoe : origin.isMonthEnd = true)
+    (hgrid : ∀ c ∈ t, ∃ z : Int, monthToId c.ps = monthToId origin + z * L + 1)
+    (hst : standardizeResolution q s = .ok (L, .month))
+    (hp : a.periodRes = some (q, s)) (he : a.evalRes = none) (ho : a.periodOrigin = origin)
+    (hagg : aggregate tr out a = .ok back) :
+    (∀ o ∈ back, ∃ c ∈ t, obsSubs c res (L / (res : Int)).toNat ≠ [] ∧
+      o.ps = c.ps ∧ o.pe = c.pe ∧ o.ev = c.ev ∧ o.md = c.md ∧ o.kind = .cumulative ∧
+      ∀ f i, F.contains f = true → ruleOf [] (lowerKey f) = some ⟨.sum, [f]⟩ →
+        (a.prem = true ∨ f ∉ nonLossMetrics) → (∀ x ∈ out, (x.getV f).inRange i = true) →
+        (o.getV f).at i = (c.getV f).at i) ∧
+    (∀ c ∈ t, obsSubs c res (L / (res : Int)).toNat ≠ [] →
+      ∃ o ∈ back, o.md = c.md ∧ o.ps = c.ps ∧ o.pe = c.pe ∧ o.ev = c.ev) := by
+  have hk : ∀ c ∈ t, KN c.values := by
+    intro c hc
+    obtain ⟨sl, hsl, _, hcs⟩ := slices_fst_mem hc
+    obtain ⟨L', _, w⟩ := disaggWF_slice hwf hsl
+    exact (w.cell c hcs).2.2.2.2
+  obtain ⟨pss, hperm, hall⟩ := disaggCore_groups hk hws hcore
+  obtain ⟨hlen, hzip⟩ := hall.zip
+  -- per input slice: well-formedness and groups with the common L
+  have hslice : ∀ sl ps, (sl, ps) ∈ (Triangle.slices t).zip pss →
+      SliceWF res sl.2 L ∧ Forall2 (SubCellsN res (L / (res : Int)).toNat F) sl.2 ps := by
+    intro sl ps hq
+    have hslm := (List.of_mem_zip hq).1
+    obtain ⟨L', hL', w⟩ := disaggWF_slice hwf hslm
+    obtain ⟨sres, hsres, hin⟩ := hzip (sl, ps) hq
+    have e1 : L' = L := by rw [hL sl hslm] at hL'; cases hL'; rfl
+    have e2 : sres = L := by rw [hL sl hslm] at hsres; cases hsres; rfl
+    subst e1; subst e2
+    exact ⟨w, hin⟩
+  -- the disaggregated triangle is not incremental
+  have hkind : ∀ o ∈ out, o.kind = .cell := by
+    intro o ho
+    obtain ⟨ps, hps, part, hpart, hopart⟩ := mem_flat2.mp (hperm.mem_iff.mp ho)
+    obtain ⟨sl, hq⟩ := exists_zip_of_mem_right hlen hps
+    obtain ⟨c, _, hs⟩ := (hslice sl ps hq).2.mem_right hpart
+    exact (hs.2.1 o hopart).2.2.1
+  have hinc : smIsIncremental out = false := by
+    unfold smIsIncremental
+    cases hout : out with
+    | nil => rfl
+    | cons c rest => simp [hkind c (by rw [hout]; simp)]
+  unfold aggregate at hagg
+  rw [hinc] at hagg
+  simp only [Bool.false_eq_true, if_false] at hagg
+  unfold aggregateCum at hagg
+  split at hagg
+  · cases hagg
+  · rename_i aggs haggs
+    have hback := aggSumTriangles_perm hagg
+    -- one aggregated slice
+    have hone : ∀ S agg, S ∈ Triangle.slices out → aggregateSlice tr a S.2 = .ok agg →
+        ∀ sl ps, (sl, ps) ∈ (Triangle.slices t).zip pss → S.1 = sl.1 →
+        aggregatePeriod tr S.2 (some (q, s)) origin a.prem = .ok agg ∧ S.2.Perm ps.flatten := by
+      intro S agg hS hSa sl ps hq hm
+      constructor
+      · unfold aggregateSlice at hSa
+        rw [he] at hSa
+        simp only [aggregateEval] at hSa
+        rw [hp, ho] at hSa
+        exact hSa
+      · unfold Triangle.slices at hS
+        obtain ⟨m, _, rfl⟩ := List.mem_map.mp hS
+        simp only at hm ⊢
+        rw [hm]
+        exact (List.mergeSort_perm _ _).trans (out_filter_slice hperm hall hq)
+    -- every slice of `out` comes from an input slice
+    have hsrc : ∀ S ∈ Triangle.slices out, ∃ sl ps, (sl, ps) ∈ (Triangle.slices t).zip pss ∧ S.1 = sl.1 := by
+      intro S hS
+      unfold Triangle.slices at hS
+      obtain ⟨m, hm, rfl⟩ := List.mem_map.mp hS
+      obtain ⟨o, ho', hom⟩ := mem_metasOf.mp hm
+      obtain ⟨ps, hps, part, hpart, hopart⟩ := mem_flat2.mp (hperm.mem_iff.mp ho')
+      obtain ⟨sl, hq⟩ := exists_zip_of_mem_right hlen hps
+      obtain ⟨c, hc, hs⟩ := (hslice sl ps hq).2.mem_right hpart
+      refine ⟨sl, ps, hq, ?_⟩
+      simp only
+      rw [← hom, (hs.2.1 o hopart).1]
+      exact (mem_slices_md (List.of_mem_zip hq).1 hc).1
+    constructor
+    · intro o hob
+      have := hback.mem_iff.mp hob
+      obtain ⟨agg, hagm, hoa⟩ := List.mem_flatten.mp this
+      obtain ⟨S, hS, hSa⟩ := smMapE_mem haggs hagm
+      obtain ⟨sl, ps, hq, hm⟩ := hsrc S hS
+      obtain ⟨hper, hSp⟩ := hone S agg hS hSa sl ps hq hm
+      obtain ⟨w, hF⟩ := hslice sl ps hq
+      have hslm := (List.of_mem_zip hq).1
+      obtain ⟨c, hc, h1, h2, h3, h4, h5, h6, h7⟩ := aggregate_disagg_slice w hF hSp hov hoe
+        (fun c hc => hgrid c (mem_slices_md hslm hc).2) hst hper o hoa
+      refine ⟨c, (mem_slices_md hslm hc).2, h1, h2, h3, h4, h5, h6, ?_⟩
+      intro f i hf hr hc' hin
+      exact h7 f i hf hr hc' fun x hx => hin x (mem_of_mem_slices hS hx)
+    · intro c hc hobs
+      obtain ⟨sl, hslm, hmd, hcs⟩ := slices_fst_mem hc
+      obtain ⟨ps, hq⟩ := exists_zip_of_mem_left hlen hslm
+      obtain ⟨w, hF⟩ := hslice sl ps hq
+      obtain ⟨part, hcp⟩ := exists_zip_of_mem_left hF.zip.1 hcs
+      have hsub := hF.zip.2 _ hcp
+      have hpne : part ≠ [] := by
+        intro he'
+        have := hsub.1
+        rw [he'] at this
+        exact hobs this.symm
+      obtain ⟨x, hxp⟩ := List.exists_mem_of_ne_nil part hpne
+      have hxout : x ∈ out := hperm.mem_iff.mpr
+        (mem_flat2.mpr ⟨ps, (List.of_mem_zip hq).2, part, (List.of_mem_zip hcp).2, hxp⟩)
+      have hxmd : x.md = sl.1 := by rw [(hsub.2.1 x hxp).1]; exact (mem_slices_md hslm hcs).1
+      have hS : (sl.1, ((out.filter fun o => o.md == sl.1).mergeSort Cell.le)) ∈ Triangle.slices out := by
+        unfold Triangle.slices
+        exact List.mem_map.mpr ⟨sl.1, mem_metasOf.mpr ⟨x, hxout, hxmd⟩, rfl⟩
+      obtain ⟨agg, hagm, hSa⟩ := smMapE_mem' haggs hS
+      obtain ⟨hper, hSp⟩ := hone _ agg hS hSa sl ps hq rfl
+      have hkeys := aggregate_disagg_slice_keys w hF hSp hov hoe
+        (fun c hc => hgrid c (mem_slices_md hslm hc).2) hst hper
+      have hck : key3 c ∈ (sl.2.filter fun c => decide (obsSubs c res (L / (res : Int)).toNat ≠ [])).map key3 :=
+        List.mem_map.mpr ⟨c, List.mem_filter.mpr ⟨hcs, by simpa using hobs⟩, rfl⟩
+      obtain ⟨o, hoa, hok⟩ := List.mem_map.mp (hkeys.mem_iff.mpr hck)
+      have hob : o ∈ back := hback.mem_iff.mpr (List.mem_flatten.mpr ⟨agg, hagm, hoa⟩)
+      obtain ⟨c', hc', _, _, _, _, h5, _⟩ := aggregate_disagg_slice w hF hSp hov hoe
+        (fun c hc => hgrid c (mem_slices_md hslm hc).2) hst hper o hoa
+      simp only [key3, Prod.mk.injEq] at hok
+      refine ⟨o, hob, ?_, hok.1, hok.2.1, hok.2.2⟩
+      rw [h5, (mem_slices_md hslm hc').1, hmd]
 
 
 end Bermuda.Units
